@@ -279,3 +279,18 @@ func Rows(t *rapid.T, root *ref.Node, maxPool, maxRows int, o ValueOpts) RowPlan
 	}
 	return p
 }
+
+// RowsAtLeast is Rows with extra runs appended until the plan has at least
+// min rows (used by checks that need several pages).
+func RowsAtLeast(t *rapid.T, root *ref.Node, maxPool, min, maxRows int, o ValueOpts) RowPlan {
+	p := Rows(t, root, maxPool, maxRows, o)
+	if len(p.Pool) == 0 {
+		return p
+	}
+	for p.NumRows() < min {
+		idx := rapid.IntRange(0, len(p.Pool)-1).Draw(t, "xi")
+		n := RunLens[rapid.IntRange(3, len(RunLens)-1).Draw(t, "xl")]
+		p.Runs = append(p.Runs, [2]int{idx, n})
+	}
+	return p
+}
